@@ -288,6 +288,17 @@ def _formula_object_density_case(E):
     c = xsf.xray_sld(with_density, energy=en)
     d = xsf.xray_sld(plain, energy=en, density=own)
     E.eq('formula_density_used_without_keyword.re', _item(E, c[0]), _item(E, d[0]))
+    # the (deprecated) method interface gives the same numbers, by energy and by wavelength; no density -> (None, None)
+    m1 = with_density.xray_sld(energy=en)
+    E.eq('method_interface.re', _item(E, m1[0]), _item(E, c[0]))
+    E.eq('method_interface.im', _item(E, m1[1]), _item(E, c[1]))
+    lam = _item(E, xsf.xray_wavelength(en))
+    m2 = with_density.xray_sld(wavelength=lam)
+    E.eq('method_interface_wavelength.re', _item(E, m2[0]), _item(E, c[0]))
+    E.eq('method_interface_wavelength.im', _item(E, m2[1]), _item(E, c[1]))
+    if len(keys) > 1:
+        m3 = plain.xray_sld(energy=en)
+        E.fact('method_interface_without_density', tuple(m3) == (None, None), note=repr(m3)[:60])
 
 
 def _isotope_independence_case(E):
